@@ -210,6 +210,8 @@ Names(o) ==
   (IF LazyShell_Arithmetic(o) THEN {"LazyShell_Arithmetic"} ELSE {}) \cup
   (IF LazyShell_ParamExp(o) THEN {"LazyShell_ParamExp"} ELSE {})
 
+DevNames == {"Dev_InAsCommand", "Dev_AnonymousFunction", "Dev_ForVariableNotAName", "Dev_FunctionBodyNotCompound",
+             "Dev_BangParenPosix", "Dev_FdTakenAsRedirectTarget", "Dev_HashAfterExpansionInSubshell"}
 Agree(o) == (o.impl = "ok") = (o.shell = "ok")
 
 \* ---------------------------------------------------------------- the walk over the observations
@@ -233,12 +235,12 @@ BaseNotExcused ==
   (o.mut = 0 /\ ~o.cr) =>
      /\ ~LoneBangTok(o.toks) /\ ~HdocWordExpansionTok(o.toks) /\ ~AmpGreaterTok(o.toks) /\ ~BadByteTok(o.toks)
      /\ ~EmptyArithTok(o.toks) /\ ~BangParenTok(o.toks)
-     /\ Names(o) = {}
+     /\ {n \in Names(o) : n \notin DevNames} = {}
 \* An excuse is only ever given to a disagreement, and -- carriage returns apart -- only where
 \* syntax.Parser is the stricter side.
 ExcusesAreOneSided ==
   LET o == Seen IN
-  LET excuses == {n \in Names(o) : n \notin {"Dev_InAsCommand", "Dev_AnonymousFunction", "Dev_ForVariableNotAName", "Dev_FunctionBodyNotCompound", "Dev_BangParenPosix", "Dev_FdTakenAsRedirectTarget", "Dev_HashAfterExpansionInSubshell"}} IN
+  LET excuses == {n \in Names(o) : n \notin DevNames} IN
   Names(o) # {} => /\ ~Agree(o)
                    /\ ((excuses # {} /\ excuses # {"IntentionalDiff_CRLF"}) => (o.impl # "ok" /\ o.shell = "ok"))
 \* The observation file is well formed.
